@@ -66,3 +66,28 @@ func spelled(i int) *Case {
 	c.Ext = ld.Case{Files: files, Dirs: dirs, ComposeFiles: []string{"proj/compose.yaml"}, WorkingDir: "proj"}
 	return c
 }
+
+// repeated builds cases in which an intermediate base of the main file (web -> mid -> b, b in
+// another file) repeats an entry its own base already has: the chain must load, and the same way,
+// whatever order the services are visited in (mid is resolved once for itself and once for web).
+func repeated(i int) *Case {
+	type rc struct{ attr, base, mid, flat string }
+	cases := []rc{
+		{"extra_hosts", `["a=1.1.1.1"]`, `["a=1.1.1.1", "b=2.2.2.2"]`, `["a=1.1.1.1", "b=2.2.2.2"]`},
+		{"extra_hosts", `["a=1.1.1.1", "c=3.3.3.3"]`, `{b: 2.2.2.2, a: 1.1.1.1}`, `["a=1.1.1.1", "c=3.3.3.3", "b=2.2.2.2"]`},
+		{"extra_hosts", `{a: 1.1.1.1}`, `["b=2.2.2.2", "a=1.1.1.1", "d=4.4.4.4"]`, `["a=1.1.1.1", "b=2.2.2.2", "d=4.4.4.4"]`},
+	}
+	k := cases[i%len(cases)]
+	third := (i/len(cases))%2 == 1 // a second extender of mid
+	main := "services:\n  web:\n    extends: mid\n  mid:\n    extends: {file: other.yml, service: b}\n    " + k.attr + ": " + k.mid + "\n"
+	flat := "services:\n  web:\n    image: b\n    " + k.attr + ": " + k.flat + "\n  mid:\n    image: b\n    " + k.attr + ": " + k.flat + "\n"
+	if third {
+		main += "  also:\n    extends: {service: mid}\n    labels: {x: \"1\"}\n"
+		flat += "  also:\n    image: b\n    labels: {x: \"1\"}\n    " + k.attr + ": " + k.flat + "\n"
+	}
+	other := "services:\n  b:\n    image: b\n    " + k.attr + ": " + k.base + "\n"
+	c := &Case{Kind: "equivalence", Service: "web", Shape: "repeated-entry/" + k.attr, Chain: 2, Repeat: 12, Input: "an intermediate base repeats an entry of its own base (other file)", Unord: []string{"ExtraHosts"}}
+	c.Flat = ld.Case{Files: map[string]string{"proj/compose.yaml": flat}, ComposeFiles: []string{"proj/compose.yaml"}, WorkingDir: "proj"}
+	c.Ext = ld.Case{Files: map[string]string{"proj/compose.yaml": main, "proj/other.yml": other}, ComposeFiles: []string{"proj/compose.yaml"}, WorkingDir: "proj"}
+	return c
+}
